@@ -148,6 +148,13 @@ def impl(case):
                 return {'err': errkind(exc), 'msg': str(exc)[:100]}
         # a file with the model's rendering is written by the driver into case['model_bytes'] (second pass)
         out['read'] = guarded(lambda: mh.opentxt(f, **kw))
+        if case['cols'] is not None:
+            # the caller's column list as an int32 array: left as it was, and good for a second read
+            cols_arr = np.array(case['cols'], dtype=np.int32)
+            kw2 = dict(kw, usecols=cols_arr)
+            first = guarded(lambda: mh.opentxt(f, **kw2))
+            second = guarded(lambda: mh.opentxt(f, **kw2))
+            out['cols_arr'] = {'intact': cols_arr.tolist() == list(case['cols']), 'same': first == second == out['read']}
         # the same read through the several-comment-characters path (np.loadtxt fallback)
         # (np.loadtxt has its own conventions for one-row files and for float-formatted integers with an integer
         # dtype, which the property does not cover: only integer-formatted tables with at least two rows)
@@ -232,6 +239,9 @@ def judge(case, ibc, answers):
             sel = sel[:nrows]
         if not cr and model_read != ('ok', sel):
             probs.append({'kind': 'model-vs-spec', 'cfg': '-', 'finding': None, 'what': 'model does not read the written file back: %s' % C.short(model_read, 100)})
+        ca = r.get('cols_arr')
+        if ca and not (ca['intact'] and ca['same']):
+            P('impl-vs-spec', 'usecols given as an int32 array: %s' % ('the array was reordered by the reader' if not ca['intact'] else 'a repeated read with the same array differs'))
         for tag in ('read', 'read_model', 'read_multi'):
             if tag not in r:
                 continue
